@@ -267,12 +267,15 @@ pub(crate) async fn handle_run<'a>(
             let target_groups = if input.include_deps {
                 let ai = analyze::AnalyzeInput::new(false, false, true);
                 let ao = analyze::analyze(&ai, &mut index, None)?;
-                for t in ao.targets.iter() {
+                let target_groups = ao
+                    .target_groups
+                    .ok_or(MonorailError::from("No target groups found"))?;
+                // only the named targets and what they depend on take part in the run:
+                // the argmaps of other targets are none of its business
+                for t in target_groups.iter().flatten() {
                     merge_target_argmaps(cfg, &index, input, t, work_path, &mut argmap)?;
                 }
-
-                ao.target_groups
-                    .ok_or(MonorailError::from("No target groups found"))?
+                target_groups
             } else {
                 // since the user specified the targets they want, without deps,
                 // we will make synthetic serialized length 1 groups that ignore the graph
